@@ -173,9 +173,9 @@ theorem C04_aperture_model_satisfies_spec (cfg : Scales.Aperture.Cfg) (ops : Lis
     idle completion with a drawn slot -/
 def c04ApCfg : Scales.Aperture.Cfg := ⟨true, 2, 10, 1 / 2, 2, false, [0, 1, 2]⟩
 def c04ApHist : List Scales.LB.Op :=
-  [.opn, .loaded [0, 1, 2] ⟨[], []⟩, .chan 0 2, .chan 1 2, .get ⟨[], [⟨0, 0⟩]⟩, .get ⟨[], [⟨0, 0⟩]⟩,
-   .leave 0 ⟨[2], []⟩, .put 0 0 ⟨[], [⟨0, 0⟩]⟩, .put 0 0 ⟨[], []⟩, .chan 2 2, .get ⟨[], [⟨0, 0⟩]⟩,
-   .put 1 1 ⟨[], [⟨0, 0⟩]⟩]
+  [.opn, .loaded [0, 1, 2] ⟨[], []⟩, .chan 0 2, .chan 1 2, .get ⟨[], [⟨0, 0, 0⟩]⟩, .get ⟨[], [⟨0, 0, 0⟩]⟩,
+   .leave 0 ⟨[2], []⟩, .put 0 0 ⟨[], [⟨0, 0, 0⟩]⟩, .put 0 0 ⟨[], []⟩, .chan 2 2, .get ⟨[], [⟨0, 0, 0⟩]⟩,
+   .put 1 1 ⟨[], [⟨0, 0, 0⟩]⟩]
 
 example : Scales.LB.comp4A.wf c04ApCfg c04ApHist = true := by decide +kernel
 example : ((Scales.LB.runSt c04ApCfg (Scales.LB.init c04ApCfg) c04ApHist).sub.hs.node 0).closed = 1 ∧
